@@ -11,7 +11,7 @@ from vgi_rpc.rpc import _common
 
 MANIFEST = {
     "level_text": "Deductive proof, for every declared signature (any number of parameters, any names/Arrow types/nullability/defaults) and every request (any column list, any keyword set, any None positions): _validate_call_signature returns normally only when the request schema equals the declared one field by field (name, type, nullability, order, count), no undeclared keyword is present and every required one is; _validate_params returns normally only when no non-optional parameter is None; both reject with TypeError only. The dispatch sites are covered by trace obligations: the implementation is invoked only after both validators returned, and an exception raised by the implementation is never mapped to a request error.",
-    "level_note": "Assumes: Arrow Field name/type/nullable attribute access and type equality are pure (opaque types with equality); _is_optional_type is an arbitrary but fixed function of the annotation; the request schema recorded by _read_request is the schema the kwargs were read from; engine + z3/cvc5 trusted.",
+    "level_note": "Dispatch order on the socket path is C05.O3; the HTTP dispatch sites (_run_unary_sync, _run_stream_init_sync) are units O3-O5 from C06_http.py. Assumes: Arrow Field name/type/nullable attribute access and type equality are pure (opaque types with equality); _is_optional_type is an arbitrary but fixed function of the annotation; the request schema recorded by _read_request is the schema the kwargs were read from; engine + z3/cvc5 trusted.",
     "technique": "contract-based deductive verification: loop invariant over the zipped schemas, set-algebra on symbolic keyword sets, ghost-trace ordering at dispatch sites; VCs by pyvc, z3/cvc5",
     "design_ref": "DESIGN.md §5 C06",
 }
@@ -149,3 +149,9 @@ def validate_params(S):
         return
     S.oblige("O2.accept_implies_every_nonoptional_param_is_not_None", ForAllInt(lambda j: Implies(And(j >= 0, j < n), Not(bad(j)))))
     S.canary("O2.canary.accepts_only_without_None", ForAllInt(lambda j: Implies(And(j >= 0, j < n), Not(SBool(IS_NONE_F(K0.val(j).t))))))
+
+
+# ------------------------------------------------------------------------------------------
+# HTTP dispatch sites (units O3-O5 live in C06_http.py; importing it registers them here)
+# ------------------------------------------------------------------------------------------
+import C06_http  # noqa: E402,F401
